@@ -387,10 +387,14 @@ def gen_plan(seed: int, mode: str, scale: int = 1):
         # real-file-system golden cannot have: such inputs are compiled but not compared
         return not any('"/' in t for t in p.files.values())
 
-    def key_for(p: Project, lang, opt, filt, endian, check=False):
+    def key_for(p: Project, lang, opt, filt, endian, check=False, api="cli"):
+        """api='cli': the golden runs the command line with the same option values;
+        api='render': the golden calls parse() + render() with exactly the same arguments
+        (the command line maps some spellings differently: `-F ""` means 'no filter', the
+        list [""] given to render() filters everything)."""
         if mode != "c18" or not keyable(p):
             return None
-        kid = h(p.content_hash(), p.name, p.main, lang, bool(opt), filt, endian, check)
+        kid = h(p.content_hash(), p.name, p.main, lang, bool(opt), filt, endian, check, api)
         if kid not in keys:
             keys[kid] = {
                 "dirname": p.name,
@@ -402,7 +406,7 @@ def gen_plan(seed: int, mode: str, scale: int = 1):
                 "filter": filt,
                 "endian": endian,
                 "check": check,
-                "api": "cli",
+                "api": api,
             }
         return kid
 
@@ -531,7 +535,7 @@ def gen_plan(seed: int, mode: str, scale: int = 1):
                     state["cwd"] = held["cwd"]
                 op = {"op": "render", "sid": sid, "lang": lang, "outdir": outdir, "outdir_abs": outabs, "opt": opt, "filter": filt, "endian": endian}
                 if not held.get("nokey"):
-                    k = key_for(snap, lang, opt, filt, endian)
+                    k = key_for(snap, lang, opt, filt, endian, api="render")
                     if k:
                         op["key"] = k
                 ops.append(op)
